@@ -17,7 +17,9 @@ func init() {
 // process-kill image and power-loss images examined with a fresh store.
 func propC08(r *Run) {
 	inBubble(r, func(rr *randRecorder) {
+		scenarioOtherDev = true
 		sc := genScenario(r, rr, []string{"add", "update", "update", "init"})
+		scenarioOtherDev = false
 		w, op := sc.w, sc.op
 		m := w.model[op.User]
 		hadOld := m != nil
@@ -42,6 +44,9 @@ func propC08(r *Run) {
 		points := 0
 		w.followUp = r.Choose("follow-up-after-crash", 2) == 1
 		w.followSet = r.Choose("follow-up-default", 3)
+		if sc.otherDev {
+			w.followUp = false // every write fails there, before and after a crash
+		}
 		// crash points: before operation k (k = 0..nops), and inside each write
 		type cp struct{ k, prefix int }
 		var cps []cp
